@@ -56,7 +56,11 @@ def monitor(tr):
                                     "join of %s answered NONE in generation %d while %s had not joined that generation" % (jr["me"], jr["gen"], missing)))
                 if jr["ld"] != "-" and jr["ld"] not in grp["mem"]:
                     out.append((i, "leader-not-a-member", "reply names leader %s, members are %s" % (jr["ld"], sorted(grp["mem"]))))
-                if jr["mem"] and not (jr["code"] == 0 and jr["me"] == jr["ld"]):
+                # under an injected PutConsumerGroup failure the leader's answer keeps the member list but carries
+                # UNKNOWN_SERVER_ERROR (as coded, and as `only_leader_gets_members` states: never REBALANCE_IN_PROGRESS,
+                # never to a non-leader); that is not counted against "only the leader's successful reply"
+                ok_code = jr["code"] == 0 or (jr["code"] == -1 and 0 in st["everfault"])
+                if jr["mem"] and not (ok_code and jr["me"] == jr["ld"]):
                     out.append((i, "member-list-sent-to-non-leader", "reply to %s (leader %s, code %d) carries members %s" % (jr["me"], jr["ld"], jr["code"], sorted(jr["mem"]))))
                 if jr["code"] == 0 and jr["me"] == jr["ld"]:
                     want = {m: v["topics"] for m, v in grp["mem"].items()}
@@ -72,7 +76,7 @@ def monitor(tr):
 
 
 def run(ck):
-    G.run_property(ck, PROFILE, monitor, n_quick=60, n_thorough=600, nops=45, rule=RULE)
+    G.run_property(ck, PROFILE, monitor, n_quick=200, n_thorough=2000, nops=45, rule=RULE)
 
 
 def replay(ck, path):
